@@ -16,6 +16,7 @@ CONSTANTS
   OwnVary <- MCOwnVary
   MaxReqs = 1
   WrongDesign = "none"
+  SameObj = FALSE
   MaxFaults = 2
 INVARIANT TypeOK
 INVARIANT ReqTopDown
